@@ -149,11 +149,146 @@ def _wrap_apply_along_axis(tr):
     tr.apply_along_axis = wrapped
 
 
+# ---------------------------------------------------------------- reads: a[idx], take, .loc, .ix, .sel, ...
+def _abs_index_label(ix, amap, order):
+    if isinstance(ix, slice):
+        o = lambda v: [] if v is None else [_abs_label(v, amap, order)]
+        if ix.step is not None and not isinstance(ix.step, (int, np.integer)):
+            raise Skip("slice step")
+        return dict(k="all", v=0, l=[], m=[], lo=[], hi=[], st=[]) if ix == slice(None) else \
+            dict(k="sl", v=0, l=[], m=[], lo=o(ix.start), hi=o(ix.stop), st=[] if ix.step is None else [int(ix.step)])
+    if np.isscalar(ix):
+        return dict(k="sc", v=_abs_label(ix, amap, order), l=[], m=[], lo=[], hi=[], st=[])
+    arr = np.asarray(ix)
+    if arr.ndim != 1:
+        raise Skip("index array ndim")
+    if arr.dtype.kind == "b":
+        return dict(k="mk", v=0, l=[], m=[bool(x) for x in arr.tolist()], lo=[], hi=[], st=[])
+    return dict(k="li", v=0, l=[_abs_label(v, amap, order) for v in arr.tolist()], m=[], lo=[], hi=[], st=[])
+
+
+def _abs_index_pos(ix):
+    if isinstance(ix, slice):
+        o = lambda v: [] if v is None else [int(v)]
+        return dict(k="all", v=0, l=[], m=[], lo=[], hi=[], st=[]) if ix == slice(None) else \
+            dict(k="sl", v=0, l=[], m=[], lo=o(ix.start), hi=o(ix.stop), st=o(ix.step))
+    if np.isscalar(ix):
+        if not isinstance(ix, (int, np.integer)):
+            raise Skip("non-integer position")
+        return dict(k="sc", v=int(ix), l=[], m=[], lo=[], hi=[], st=[])
+    arr = np.asarray(ix)
+    if arr.ndim != 1:
+        raise Skip("index array ndim")
+    if arr.dtype.kind == "b":
+        return dict(k="mk", v=0, l=[], m=[bool(x) for x in arr.tolist()], lo=[], hi=[], st=[])
+    if arr.dtype.kind not in "iu" and arr.size:
+        raise Skip("non-integer positions")
+    return dict(k="li", v=0, l=[int(v) for v in arr.tolist()], m=[], lo=[], hi=[], st=[])
+
+
+def _record_take(orig, self, indices, kw, result, error):
+    import dimarray as da
+    from dimarray.core.indexing import expanded_indexer
+    from dimarray.config import get_option
+    if type(self) is not da.DimArray:
+        raise Skip("not an in-memory DimArray")
+    if kw.get("broadcast") or kw.get("broadcast_arrays") or kw.get("keepdims") or kw.get("tol") is not None or getattr(self, "_tol", None) is not None:
+        raise Skip("option outside the modelled call")
+    if self._is_boolean_index_nd(indices):
+        raise Skip("N-d boolean index")
+    axis = kw.get("axis", 0)
+    mode = kw.get("indexing") or getattr(self, "_indexing", None) or get_option("indexing.by")
+    dims = list(self.dims)
+    if indices is None:
+        indices = ()
+    if axis not in (0, None):
+        indices = {axis: indices}
+    if isinstance(indices, dict):
+        d2 = {}
+        for k, v in indices.items():
+            d2[k if isinstance(k, str) else dims[k]] = v
+        if any(k not in dims for k in d2):
+            raise Skip("unknown dimension")
+        indices = tuple(d2.get(d, slice(None)) for d in dims)
+    elif hasattr(indices, "dims") and not isinstance(indices, da.DimArray):
+        raise Skip("Axes index")
+    indices = expanded_indexer(indices, self.ndim)
+    a_abs, maps = _abs_array(self, nan_as_missing=False)
+    a_abs["kinds"] = ["i" if ax.values.dtype.kind in "iuf" else "s" for ax in self.axes]
+    idxs = []
+    for ix, (amap, order) in zip(indices, maps):
+        idxs.append(_abs_index_label(ix, amap, order) if mode != "position" else _abs_index_pos(ix))
+    ev = dict(op="take", **{"in": dict(a=a_abs, idxs=idxs, mode="position" if mode == "position" else "label", tol=[])})
+    if error is not None:
+        ev["out"] = dict(ok=False, val=[], err=type(error).__name__)
+        return ev
+    # data movement observed on a shadow operand holding the cell identifiers
+    shadow = da.DimArray(np.arange(1, self.values.size + 1, dtype=float).reshape(self.shape), axes=[ax.copy() for ax in self.axes])
+    shadow.attrs.update(self.attrs)
+    kw2 = dict(kw)
+    sres = orig(shadow, indices, **{k: v for k, v in kw2.items() if k != "axis"})
+    if isinstance(sres, da.DimArray) != isinstance(result, da.DimArray):
+        raise Skip("shadow result of another type")
+    val, _ = _abs_result(result, self, maps, False)
+    val["kinds"] = [a_abs["kinds"][dims.index(d)] for d in val["dims"]]
+    val["cells"] = [int(x) for x in (sres.values.ravel().tolist() if isinstance(sres, da.DimArray) else [sres])]
+    val["dtype"] = a_abs["dtype"]
+    if isinstance(result, da.DimArray):
+        real = result.values.ravel()
+        src = self.values.ravel()
+        for pos, c in enumerate(val["cells"]):
+            x, y = real[pos], src[c - 1]
+            if not (x == y or (x != x and y != y)):
+                raise Skip("shadow and real results disagree")       # the call did not move data the way its shadow did
+    ev["out"] = dict(ok=True, val=val, err="")
+    return ev
+
+
+def _wrap_getitem(bases):
+    cls = bases.AbstractDimArray
+    orig = cls._getitem
+
+    def wrapped(self, indices=None, **kw):
+        outer = _depth[0] == 0
+        _depth[0] += 1
+        result = error = None
+        try:
+            result = orig(self, indices, **kw)
+            return result
+        except Exception as e:  # noqa
+            error = e
+            raise
+        finally:
+            _depth[0] -= 1
+            if outer:
+                _stats["seen"] += 1
+                try:
+                    _depth[0] += 1
+                    try:
+                        ev = _record_take(orig, self, indices, kw, result, error)
+                    finally:
+                        _depth[0] -= 1
+                    ev["id"] = len(_events) + 1
+                    _events.append(ev)
+                    _stats["recorded"] += 1
+                except Skip:
+                    _stats["not_abstractable"] += 1
+                except Exception:  # noqa
+                    _stats["not_abstractable"] += 1
+    cls._getitem = wrapped
+    cls.__getitem__ = wrapped
+
+
 def pytest_configure(config):
     if os.environ.get("DIMARRAY_VERIF") != "1" or not _OUT:
         return
-    import dimarray.core.transform as tr
-    _wrap_apply_along_axis(tr)
+    what = os.environ.get("VERIF_TRACE_WHAT", "reduce")
+    if "reduce" in what:
+        import dimarray.core.transform as tr
+        _wrap_apply_along_axis(tr)
+    if "take" in what:
+        import dimarray.core.bases as bases
+        _wrap_getitem(bases)
 
 
 def pytest_sessionfinish(session, exitstatus):
